@@ -100,7 +100,11 @@ func buildOps(w, h int) []op {
 	pos := [][]int{{}, {0, 0}, {1, 1}, {2, 2}, {h, w}, {h + 1, w + 1}, {2}, {-1, 2}, {1, w}, {h, 1}}
 	two('H', "CUP", pos, true)
 	two('f', "HVP", pos, true)
-	two('r', "DECSTBM", [][]int{{}, {0, 0}, {1, 2}, {2, 3}, {2, 1}, {1, h}, {2, h}, {1, h + 1}, {2}, {-1, 2}, {h, h}}, false)
+	regions := [][]int{{}, {0, 0}, {1, 2}, {2, 3}, {2, 1}, {1, h}, {2, h}, {1, h + 1}, {2}, {-1, 2}, {h, h}}
+	if h >= 5 {
+		regions = append(regions, []int{2, h - 1}, []int{3, h - 1})
+	}
+	two('r', "DECSTBM", regions, false)
 	add("IND", "IND", ansi.ESC{Final: 'D'}, "\x1bD", false)
 	add("RI", "RI", ansi.ESC{Final: 'M'}, "\x1bM", false)
 	add("NEL", "NEL", ansi.ESC{Final: 'E'}, "\x1bE", false)
@@ -115,9 +119,10 @@ func buildOps(w, h int) []op {
 }
 
 type cfg struct {
-	name string
-	w, h int
-	ops  []op
+	name  string
+	w, h  int
+	ops   []op
+	depth int // 0: the default depth
 }
 
 // ---- comparison ------------------------------------------------------------------------
@@ -336,12 +341,29 @@ func main() {
 	for _, s := range sizes {
 		cfgs = append(cfgs, &cfg{name: fmt.Sprintf("%dx%d", s[0], s[1]), w: s[0], h: s[1], ops: buildOps(s[0], s[1])})
 	}
+	// taller screens, where a scroll region can lie strictly inside the screen with the cursor above or
+	// below it: the vertical vocabulary only (one column of text is enough to tell the rows apart)
+	vertical := map[string]bool{"print": true, "CR": true, "LF": true, "CUU": true, "CUD": true, "CNL": true, "CPL": true, "VPA": true, "CUP": true, "IL": true, "DL": true,
+		"SU": true, "SD": true, "DECSTBM": true, "IND": true, "RI": true, "NEL": true, "DECSC": true, "DECRC": true, "ED": true}
+	for _, s := range [][2]int{{2, 4}, {2, 5}} {
+		var ops []op
+		for _, o := range buildOps(s[0], s[1]) {
+			if vertical[o.Family] && o.Name != "print b" {
+				ops = append(ops, o)
+			}
+		}
+		cfgs = append(cfgs, &cfg{name: fmt.Sprintf("%dx%d-vertical", s[0], s[1]), w: s[0], h: s[1], ops: ops, depth: r.Pick(4, 5)})
+	}
 	byName := map[string]*cfg{}
 	for _, c := range cfgs {
 		byName[c.name] = c
 	}
 	mk := func(c *cfg) *explore.BFS {
-		return &explore.BFS{R: r, Name: c.name, NumOps: len(c.ops), MaxDepth: r.Pick(5, 6),
+		depth := r.Pick(5, 6)
+		if c.depth > 0 {
+			depth = c.depth
+		}
+		return &explore.BFS{R: r, Name: c.name, NumOps: len(c.ops), MaxDepth: depth,
 			RunPath: func(p []uint16) (uint64, explore.Status) { return runPath(c, p) }}
 	}
 	if r.Replay != "" {
